@@ -68,11 +68,32 @@ func runDefaults(hdr Header, c any, src string) CaseResult {
 	// ValidateDefaults
 	var s2 jsonschema.Schema
 	json.Unmarshal([]byte(text), &s2)
-	_, verr := s2.Resolve(&jsonschema.ResolveOptions{ValidateDefaults: true})
+	rs2, verr := s2.Resolve(&jsonschema.ResolveOptions{ValidateDefaults: true})
 	res.Evals++
 	wantOK := cm["vd"] == "ok"
 	if (verr == nil) != wantOK {
 		fail("validate-defaults", json.RawMessage(text), map[string]any{"Resolve(ValidateDefaults) succeeds": wantOK}, errText(verr))
+	}
+	// The same after-states from a Resolved whose defaults were validated, and every instance owns what
+	// was inserted into it: the caller writes into each result, later applications must not see that.
+	if verr == nil {
+		for pass := 0; pass < 2 && len(res.Failures) == 0; pass++ {
+			for i, in := range insts {
+				ij := abs.ValueJSON(in)
+				var v, want any
+				json.Unmarshal([]byte(ij), &v)
+				json.Unmarshal([]byte(abs.ValueJSON(after[i])), &want)
+				res.Evals++
+				if err := rs2.ApplyDefaults(&v); err != nil || !reflect.DeepEqual(v, want) {
+					gj, _ := json.Marshal(v)
+					fail("defaults-shared", map[string]any{"schema": json.RawMessage(text), "instance": json.RawMessage(ij),
+						"history": "earlier results of ApplyDefaults on the same Resolved (ValidateDefaults) were written to by their owner"},
+						json.RawMessage(abs.ValueJSON(after[i])), json.RawMessage(gj))
+					break
+				}
+				scribbleInstance(v, 7)
+			}
+		}
 	}
 	res.Nontrivial = changed || !wantOK
 	res.Sample = map[string]any{"schema": json.RawMessage(text), "validate_defaults": cm["vd"]}
